@@ -3,6 +3,7 @@ package props
 import (
 	"fmt"
 	"math/big"
+	"strings"
 	"time"
 
 	sdk "github.com/cosmos/cosmos-sdk/types"
@@ -130,6 +131,12 @@ func runC04(rc *RunCtx) {
 		if rc.Chance(0.05) {
 			msg.PaymentDenom = "uatom"
 		}
+		spell := "canonical"
+		if rc.Chance(0.15) {
+			// the same account, spelled in upper case (valid bech32, same signer)
+			msg.Creator = strings.ToUpper(msg.Creator)
+			spell = "UPPER"
+		}
 		// ---- expectation from the pre-state
 		ctx := c.Ctx()
 		k := c.App.StorageKeeper
@@ -202,7 +209,7 @@ func runC04(rc *RunCtx) {
 		if !r.OK() {
 			outcome = "fail"
 		}
-		rc.Logf("h=%d buy payer=acc%d for=acc%d bytes=%d days=%d ref=%s plan=%s denom=%s -> code=%d %s", c.Height, payer, forAcc, bytes, days, refClass[ri], planState, msg.PaymentDenom, r.Code, failLog(r))
+		rc.Logf("h=%d buy creator-spelling=%s payer=acc%d for=acc%d bytes=%d days=%d ref=%s plan=%s denom=%s -> code=%d %s", c.Height, spell, payer, forAcc, bytes, days, refClass[ri], planState, msg.PaymentDenom, r.Code, failLog(r))
 		if !preSup.IsEqual(postSup) {
 			rc.Fail("C04/supply-changed", "purchase changed total supply %s -> %s", preSup, postSup)
 		}
